@@ -16,7 +16,7 @@ import z3
 from . import ir, build
 from .symex import Ptr, FnPtr, MemView, Ctx, BV, simp, short_fn
 
-SAN = ['-fsanitize=address,undefined', '-fno-sanitize-recover=undefined', '-fno-omit-frame-pointer']
+SAN = ['-fsanitize=address,undefined', '-fno-sanitize=vptr', '-fno-sanitize-recover=undefined', '-fno-omit-frame-pointer']
 
 
 def _ctype(mod, t, attrs):
